@@ -16,10 +16,10 @@ RULE = (
     "resolved to. Each tree is read with read_namespace and with read_files for several random target subsets and orders; "
     "error shapes (missing name/version, self reference, 2- and 3-cycles, case-only difference, duplicate name+version in "
     "two lookup roots of the same name, reference to a lookup root that was not given) must be rejected with "
-    "InvalidDefinitionError. Non-trivial: >=3 definitions and >=2 edges, or an error shape; distinct by graph + read order."
+    "InvalidDefinitionError, also when the caller re-uses one lookup list object that earlier reads were given. Non-trivial: >=3 definitions and >=2 edges, or an error shape; distinct by graph + read order."
 )
 ASSUMPTIONS = ["R-resolve (pv/gen/ns.py: resolve) restates the resolution rule of the property"]
-MIN_MONITORS = {"reference-resolved": 6000, "nested-equals-own-read": 6000, "read-files-order": 3000, "error-shape": 1200}
+MIN_MONITORS = {"reference-resolved": 6000, "nested-equals-own-read": 6000, "read-files-order": 3000, "error-shape": 1200, "lookup-list-reused": 500}
 THOROUGH_MIN_SCALE = 10
 
 
@@ -287,18 +287,35 @@ def run_error(ctx, pydsdl, ns0, seed, workdir):
     if made is None:
         return None
     ns, v, lookups = made
-    case = {"ns": ns, "seed": seed, "shape": shape, "lookups": lookups}
+    case = {"ns": ns, "seed": seed, "shape": shape, "lookups": lookups, "ns0": ns0}
     base = workdir / "c09"
     shutil.rmtree(base, ignore_errors=True)
     ctx.mon("error-shape")
     try:
         paths = GN.write_namespace(ns, base)
         api = rng.choice(["read_namespace", "read_files"])
+        lookup_arg = [base / ns["roots"][j]["dir"] for j in lookups]
+        if rng.random() < 0.3:
+            lookup_arg = [str(x) for x in lookup_arg]
+        if rng.random() < 0.5:
+            # history: the caller keeps ONE lookup list and has used it for reading the other root namespaces before (whatever came of
+            # those calls); what this call may see is still its own target plus the lookups it is given
+            ctx.mon("lookup-list-reused")
+            for r in rng.sample(range(1, len(ns["roots"])), len(ns["roots"]) - 1):
+                try:
+                    if rng.random() < 0.5:
+                        pydsdl.read_namespace(base / ns["roots"][r]["dir"], lookup_arg)
+                    else:
+                        mine = [paths[i] for i, x in enumerate(ns["defs"]) if x["root"] == r]
+                        if mine:
+                            pydsdl.read_files(rng.sample(mine, 1), [base / ns["roots"][r]["dir"]], lookup_arg)
+                except pydsdl.InvalidDefinitionError:
+                    pass
         try:
             if api == "read_namespace":
-                read_root(pydsdl, base, ns, 0, lookups)
+                pydsdl.read_namespace(base / ns["roots"][0]["dir"], lookup_arg)
             else:
-                pydsdl.read_files([paths[v]], [base / ns["roots"][0]["dir"]], [base / ns["roots"][j]["dir"] for j in lookups])
+                pydsdl.read_files([paths[v]], [base / ns["roots"][0]["dir"]], lookup_arg)
             ctx.violation("C09/error-shape-accepted", "%s: tree with error shape %s was accepted" % (api, shape), case)
         except pydsdl.InvalidDefinitionError:
             pass
@@ -341,7 +358,15 @@ def replay(ctx, case):
         for r in d["refs"]:
             if r.get("array"):
                 r["array"] = tuple(r["array"])
-    if case.get("shape", "valid") == "valid":
+    if "ns0" in case:
+        ns0 = case["ns0"]
+        for d in ns0["defs"]:
+            d["ver"] = tuple(d["ver"])
+            for r in d["refs"]:
+                if r.get("array"):
+                    r["array"] = tuple(r["array"])
+        print("shape replayed:", run_error(ctx, pydsdl, ns0, case["seed"], ctx.tmp))
+    elif case.get("shape", "valid") == "valid":
         run_valid(ctx, pydsdl, ns, case["seed"], case.get("orders", 6), ctx.tmp)
     else:
         base = ctx.tmp / "c09"
